@@ -1,12 +1,10 @@
 #!/bin/bash
 # (authoring aid) regenerate an annotated part from the current extraction, rebuild the unit, run Verus
-# usage: run.sh <unit> <part> <first-source-file-of-the-part>
+# usage: run.sh <unit> <part> <ignored> [verus args]
 set -e
 cd /verif
-U=$1; P=$2; F=$3
-python3 vx/build.py extract $U > /tmp/${U}_extract.rs
-n=$(grep -n "^//@@ $F" /tmp/${U}_extract.rs | head -1 | cut -d: -f1)
-tail -n +$n /tmp/${U}_extract.rs > /tmp/${P}_raw.rs
+U=$1; P=$2
+python3 vx/annot/partraw.py $U $P > /tmp/${P}_raw.rs
 python3 vx/annot/${P}_annot.py /tmp/${P}_raw.rs specs/parts/${P}.rs
 python3 vx/build.py freeze $U > /dev/null
 python3 vx/build.py build $U > /dev/null
